@@ -21,7 +21,9 @@ def infn(*parts):
 ALG = ("algorithms/mod.rs", "algorithms/myers.rs", "algorithms/lcs.rs", "algorithms/patience.rs", "algorithms/utils.rs",
        "algorithms/hook.rs")
 PIPE = ("algorithms/compact.rs", "algorithms/replace.rs", "algorithms/capture.rs", "common.rs", "types.rs")
-A_ALL = ["A1", "A2", "A3", "A4", "A5", "A7", "A8", "A9", "A10"]
+A_ALL = ["A1", "A2", "A3", "A4", "A5", "A7", "A8", "A9", "A10", "A11"]
+# The tokenizer rules: every property that reads tokens back as text depends on them.
+TOKENIZER = ["F7", "F11", "F12", "F20", "F21"]
 # Rules that are necessary for the captured op list to be a valid edit script at all; every property that reads text
 # back out of the ops (C04 reconstruction, C05 hunks, C17 remapping) depends on them.
 SCRIPT_VALID = ["E1", "E2", "E3", "G3", "G5", "G6", "G7", "B5", "F1", "F5", "F13"]
@@ -34,7 +36,7 @@ def a_rules(files, rules=A_ALL):
 PROPERTIES = {
     "C01": {
         "level": "other",
-        "rules": a_rules(ALG) + ["E1", "E2", "E3", "B6", "B7", "F15", "F17"],
+        "rules": a_rules(ALG) + ["E1", "E2", "E3", "E5", "B6", "B7", "F15", "F17"],
         "explanation": "Decided for all inputs: (1) every index handed to a diff hook by the three algorithms, every index "
                        "into a caller-ranged sequence and every range passed between the algorithm functions is an absolute "
                        "position of the right side and coordinate frame (A1-A5, A7: sort inference over the type-checked HIR "
@@ -45,7 +47,7 @@ PROPERTIES = {
     },
     "C02": {
         "level": "other",
-        "rules": ["F1", "F5", "B5", "G3", "G5", "G6", "G7", "F13", "F16", "E2", "E3"] + a_rules(PIPE + ALG),
+        "rules": ["F1", "F2", "F5", "B5", "G3", "G5", "G6", "G7", "F13", "F16", "E2", "E3", "E5"] + a_rules(PIPE + ALG),
         "explanation": "Decided: the capture pipeline is Compact(Replace(Capture)) and returns that hook's ops (F1); Compact "
                        "replays every buffered op once, in order, then finishes, Replace flushes in order (B5); every op "
                        "constructed or forwarded in compact/replace/capture/common/types takes old-side fields from old-"
@@ -56,7 +58,8 @@ PROPERTIES = {
     "C03": {
         "level": "other",
         "rules": [(r, infn("lcs::make_table", "lcs::diff_deadline")) for r in ("A2", "A3", "A5", "A10")] +
-                 ["G3", "F13", "F17", "F18", "F19", ("A7", infn("myers::find_middle_snake"))],
+                 ["G3", "F13", "F17", "F18", "F19", "F14", "F6", ("A7", infn("myers::find_middle_snake"))] +
+                 a_rules(("algorithms/compact.rs",), ["A4", "A9"]),
         "explanation": "Decided (one necessary condition only): the LCS table is built by reading the sequences through "
                        "positions derived from the requested ranges, and the walk reads the table with the same key slot "
                        "order it was written with (A2/A3/A5 restricted to lcs::make_table and lcs::diff_deadline).  "
@@ -65,7 +68,7 @@ PROPERTIES = {
     },
     "C04": {
         "level": "other",
-        "rules": ["F4", "F2", "F11", "F12", "F20", "F21"] + SCRIPT_VALID + [("A6", infile("text/abstraction.rs"))] +
+        "rules": ["F4", "F2", "F23"] + TOKENIZER + SCRIPT_VALID + [("A6", infile("text/abstraction.rs"))] +
                  a_rules(("iter.rs", "text/mod.rs") + ALG + PIPE),
         "explanation": "Decided: every Change constructor carries exactly the indices its tag allows and takes its value from "
                        "the proper side, per DiffTag arm (F4); both texts are tokenized by the same tokenizer in the right "
@@ -76,7 +79,7 @@ PROPERTIES = {
     },
     "C05": {
         "level": "other",
-        "rules": ["D1", "F8", "F10", "G2", "F7"] + SCRIPT_VALID + a_rules(("udiff.rs",)),
+        "rules": ["D1", "F8", "F10", "G2", "F7"] + SCRIPT_VALID + a_rules(("udiff.rs", "types.rs")),
         "explanation": "Decided: no lossy decoding is reachable from the byte writers and each line is written with "
                        "write_all(as_bytes(value)) (D1: call graph incl. fmt::Display edges); Display and to_writer emit the "
                        "same (guard, template) sequence incl. header-once and missing-newline logic (F8); hunk header extents "
@@ -87,7 +90,7 @@ PROPERTIES = {
     },
     "C06": {
         "level": "other",
-        "rules": ["F7", "F11", "F12", "F20", "F21", ("A6", infile("text/abstraction.rs"))],
+        "rules": TOKENIZER + [("A6", infile("text/abstraction.rs"))],
         "explanation": "Decided (necessary conditions only): the str and [u8] tokenizers use the same break characters and "
                        "character-class predicates (F7), and token boundaries are byte offsets advanced by byte lengths, never "
                        "by counts (A6 in abstraction.rs).  Losslessness, non-emptiness and token shapes are NOT examined.  F20: look-ahead never consumes; F21: no delegation to std line splitters (lone CR).",
@@ -117,7 +120,7 @@ PROPERTIES = {
     },
     "C09": {
         "level": "other",
-        "rules": ["E1", "B5", "F1", "G3", "G5", "G6", "G7", "F13", "F16"],
+        "rules": ["E1", "B4", "B5", "F1", "G3", "G5", "G6", "G7", "F13", "F16"],
         "explanation": "Decided: no algorithm emits an empty op (E1); Replace merges runs and emits delete/replace before "
                        "insert, flushing in order (B5); both adapters are in the capture pipeline, Compact outside Replace (F1)."
                        "  Alternation after compaction and 'insertion sits at its latest position' are NOT examined.  Round 3: only an op tested to be Equal absorbs equal items (G7); merged same-kind ops grow by the right side (F13); the insert/delete slide-down arms are twins (F16); no stale op snapshot across list mutation (G5).",
@@ -125,7 +128,7 @@ PROPERTIES = {
     },
     "C10": {
         "level": "other",
-        "rules": ["F5", "B5", "G3", "G5", "G6", "G7", "F13", "F16", ("B4", infile("algorithms/compact.rs", "algorithms/capture.rs"))] +
+        "rules": ["F5", "B4", "B5", "G3", "G5", "G6", "G7", "F13", "F16"] +
                  a_rules(("algorithms/compact.rs", "algorithms/replace.rs", "types.rs")),
         "explanation": "Decided (structural parts only): no slot or side mix-up in any compaction arm or in Replace (A1-A5, A7), "
                        "helpers move start and length consistently (F5), Replace/Compact typestate (B5), Compact buffers exactly "
@@ -134,7 +137,7 @@ PROPERTIES = {
     },
     "C11": {
         "level": "other",
-        "rules": ["G1", "G5", "F5", "F10", "A4", "A9", "E3",
+        "rules": ["G1", "G5", "F5", "F10", "A4", "A9", "A11", "E3", "E5",
                   ("A1", infile("types.rs", "algorithms/compact.rs", "algorithms/replace.rs", "algorithms/lcs.rs",
                                 "algorithms/myers.rs", "algorithms/patience.rs"))],
         "explanation": "Decided: every order-changing operation on a list of ops is followed by a rewrite of the affected "
@@ -158,7 +161,7 @@ PROPERTIES = {
     },
     "C13": {
         "level": "other",
-        "rules": ["F4", "F3", "F22", "B4"] + a_rules(("iter.rs", "types.rs")),
+        "rules": ["F4", "F3", "F22", "F23", "B4"] + a_rules(("iter.rs", "types.rs")),
         "explanation": "Decided: per-variant tables of ChangesIter::next, as_tag_tuple, apply_to_hook and both iter_slices "
                        "(F3/F4: tags, Some/None indices, value side, Replace = deletes then inserts, twins identical); old "
                        "cursor indexes old, new cursor indexes new, apply_to_hook passes fields in slot order (A1/A2/A4).  "
@@ -177,7 +180,8 @@ PROPERTIES = {
     },
     "C15": {
         "level": "other",
-        "rules": ["F15", "B6", "B7", "F17"] + a_rules(("algorithms/patience.rs", "algorithms/utils.rs", "algorithms/myers.rs")),
+        "rules": ["F15", "B6", "B7", "F17", "F2"] + a_rules(("algorithms/patience.rs", "algorithms/utils.rs", "algorithms/myers.rs")) +
+                 a_rules(("algorithms/compact.rs",), ["A4", "A9"]),
         "explanation": "Decided (one clause): anchors are translated from unique-list coordinates to original coordinates "
                        "only through original_index(), per side and per frame (A1-A5, A7 with frames U vs F0 in patience.rs "
                        "and unique()).  Maximality and the uniqueness filter are NOT examined.  Round 3: the dispatcher passes the caller's ranges unchanged (F17) and patience::diff_deadline runs Myers only on the Patience hook (B7), so the uniqueness analysis always sees the requested ranges and is never bypassed.",
@@ -186,7 +190,7 @@ PROPERTIES = {
     "C16": {
         "level": "other",
         "rules": ["F9", ("F4", infile("text/inline.rs")), ("C1", infile("text/inline.rs", "text/mod.rs"))] +
-                 a_rules(("text/inline.rs",), A_ALL + ["A6"]) + ["F12", ("A6", infile("text/abstraction.rs"))],
+                 a_rules(("text/inline.rs",), A_ALL + ["A6"]) + TOKENIZER + [("A6", infile("text/abstraction.rs"))],
         "explanation": "Decided: tags/indices of assembled InlineChanges (F4, A4), side consistency of lookup/push_values use "
                        "(A3), byte-unit discipline of MultiLookup (A6), deadline plumbing of the inline diff (C1), emphasis only "
                        "in Delete/Insert/Replace arms and never on a newline segment (F9).  Concatenation equals the line is "
@@ -195,7 +199,7 @@ PROPERTIES = {
     },
     "C17": {
         "level": "other",
-        "rules": ["F3", "F2"] + SCRIPT_VALID + a_rules(("utils.rs", "text/mod.rs")) + [("A6", infile("src/utils.rs"))],
+        "rules": ["F3", "F2"] + TOKENIZER + SCRIPT_VALID + a_rules(("utils.rs", "text/mod.rs")) + [("A6", infile("src/utils.rs"))],
         "explanation": "Decided: source.slice receives byte offsets accumulated from token byte lengths (A6); the old remapper "
                        "is built from old text + old tokens, new from new (A3/A4); iter_slices twin agreement (F3); helper "
                        "wiring (F2).  Reconstruction and 'never panics' are NOT examined.  The script-validity rules (E1-E3, G3, G5-G7, B5, F1, F5, F13) are included because remapping reads the captured ops.",
@@ -203,7 +207,7 @@ PROPERTIES = {
     },
     "C20": {
         "level": "other",
-        "rules": ["D2", "D3", "D4", "F7", "F6", "F14", "C5", "F20", "F21"],
+        "rules": ["D2", "D3", "D4", "F6", "F14", "C5", "F2"] + TOKENIZER,
         "explanation": "Decided: the only order-sensitive hash iteration is sorted before use (D2); no clock/thread/env/"
                        "random/address dependence outside the deadline probe (D3, C5); items are only compared with ==/!= and "
                        "hashed, never ordered or formatted (D4: relabelling invariance); str and [u8] tokenizers classify "
